@@ -98,6 +98,15 @@ def gen_scripts(ctx, quick, after=False, outs=("ok", "ok", "ok", "err"), per=Non
                                           {"id": "i2", "kind": "worker", "out": "ok", "done": 1}],
                                 "hasStopFn": True, "dep": True, "mode": mode, "probes": True, "waitAgain": False, "directed": "prestart",
                                 "policy": ["i2", "stopper", "stopper", "stopper", "stopper", "fn", "i1", "i2", "fn", "stopper", "stopper"]})
+        # directed: the judged history is the second life cycle of the module - in the first one the stop ran into its
+        # timeout (a worker that ignores its context), the module was started again and the straggler returned
+        for items, pol in (([{"id": "i1", "kind": "worker", "out": "ok", "done": 1}, {"id": "i2", "kind": "task", "out": "ok", "done": 1}],
+                            ["i1", "i2", "stopper", "stopper", "stopper", "stopper", "fn", "i1", "fn", "i2", "stopper", "stopper"]),
+                           ([{"id": "i1", "kind": "micro_med", "out": "ok", "done": 1}, {"id": "i2", "kind": "startworker", "out": "ok", "done": 1}],
+                            ["i1", "i2", "stopper", "stopper", "stopper", "stopper", "i2", "fn", "fn", "i1", "stopper", "stopper"])):
+            for fn in (True, False):
+                scripts.append({"items": items, "hasStopFn": fn, "dep": True, "mode": "manage", "probes": True, "waitAgain": False,
+                                "prelude": True, "directed": "secondcycle", "policy": pol})
         # directed: a service worker whose function has failed and which sits in a long restart back-off when its module is
         # stopped (by the shutdown and by module management): the back-off must end with the module's stop
         for out in ("err", "panic_str"):
